@@ -227,6 +227,25 @@ func zzFixtureWithDefaults(opts ...Option) *Options {
 	return NewOptions(opts...)
 }
 `, "zzFixtureWithDefaults"},
+	{"R254", "schema/zz_fixture_r254.go", `package schema
+
+import "encoding/xml"
+
+type zzFixtureTimeout struct {
+	Timeout string ` + "`xml:\"timeout,attr\"`" + `
+}
+
+func (t *zzFixtureTimeout) UnmarshalXML(de *xml.Decoder, start xml.StartElement) error {
+	type alias zzFixtureTimeout
+	out := alias{}
+	if err := de.DecodeElement(&out, &start); err != nil {
+		return err
+	}
+	*t = zzFixtureTimeout(out)
+	t.Timeout += "s"
+	return nil
+}
+`, "UnmarshalXML"},
 }
 
 // checkFixtures runs the zero-expected rules among ids on the fixture program and returns one obligation per rule.
